@@ -79,6 +79,9 @@ func c11Check(c *hist.Case, r *evid.Rec) []evid.Disc {
 				delete(recSent[s.Peer], s.Sent.PacketID)
 			case refmqtt.PUBREC:
 				if s.Sent.ReasonCode >= 0x80 {
+					if !inTransit[s.Peer][s.Sent.PacketID] {
+						staleAck[s.Peer] = true // refusing a message of the resumed session that the broker has forgotten (see PUBACK below)
+					}
 					delete(inTransit[s.Peer], s.Sent.PacketID)
 				} else if s.A.Kind == "ack" {
 					if recSent[s.Peer] == nil {
